@@ -505,6 +505,27 @@ def handler_reachable(ctx, R, tr):
     return list(out.values())
 
 
+def _outside_domain(ctx, R, f, r):
+    """The raise is taken only for calls the property does not speak about: an argument that is neither str nor bytes (a type test on
+    parse()'s own parameter failed), or a parse() re-entered while it is running (a scoped busy flag of the parser is set)."""
+    from .c13 import scoped_flags
+    cfg = ctx.cfg(f)
+    text = f.params[1] if len(f.params) > 1 else None
+    flags = {a for a, v in scoped_flags(ctx, R).items() if v == "scoped"}
+
+    def excluded(fc):
+        e, pol = fact_atom(fc)
+        if isinstance(e, ast.Call) and call_name(e) == "isinstance" and len(e.args) == 2 and isinstance(e.args[0], ast.Name) and e.args[0].id == text \
+                and pol is False:
+            names = {norm(x).split(".")[-1] for x in (e.args[1].elts if isinstance(e.args[1], ast.Tuple) else [e.args[1]])}
+            return "bytes" in names  # not bytes (str was converted before, or is refused as well)
+        if isinstance(e, ast.Attribute) and isinstance(e.value, ast.Name) and e.value.id == f.params[0] and e.attr in flags and pol is True:
+            return True
+        return False
+    nodes = cfg.nodes_for(r)
+    return bool(nodes) and all(cfg.guarded(nd, excluded) for nd in nodes)
+
+
 def x4(ctx, R):
     ctx.rule("X4", "raise closure: classes raised in code reachable from parse are caught by the funnel; the token loop is inside the try")
     tr, caught = funnel(ctx, R, "X4")
@@ -516,6 +537,10 @@ def x4(ctx, R):
                 continue
             n += 1
             name = raise_name(r)
+            if f is R.parse and _outside_domain(ctx, R, f, r):
+                ctx.holds("X4", "%s: raise %s only for an argument that is neither str nor bytes, or when parse() is re-entered while it runs"
+                          % (f.qualname, name))
+                continue
             if f is R.parse and not contains(tr, r):
                 ctx.violation("X4", f, "raise-outside-try:%s" % name, "parse() raises %s outside the funnel" % name, node=r)
                 continue
